@@ -232,3 +232,94 @@ func init() {
 	replayers["C03"] = propC03.replayer()
 	replayers["C14"] = propC14.replayer()
 }
+
+// ---------------------------------------------------------------- C15: memory of other owners
+
+// TestC15Foreign: a parser A is given a caller slice with Reset(data), grows
+// beyond it and is dropped; the caller takes its slice back and overwrites it.
+// A second parser B that was fed in between must still show exactly the bytes
+// it was fed (and A, while it lives, the bytes it was fed). Sizes run from a
+// few bytes to beyond 64 KiB, where allocation strategies usually change.
+func TestC15Foreign(t *testing.T) {
+	st := statsFor("C15")
+	rapid.Check(t, func(t *rapid.T) {
+		kinds := []string{"BUF", "HP", "BHP", "DHP", "BUP"}
+		mk := func(label string) (*parserExec, bool) {
+			cfg := PCfg{Kind: rapid.SampledFrom(kinds).Draw(t, label+"Kind"),
+				BufferSize: rapid.SampledFrom([]int{0, 1 << 20, 300_000, 150_000, 70_000}).Draw(t, label+"Buf"), BlockSize: 4096}
+			switch cfg.Kind {
+			case "DHP":
+				cfg.HashBits1, cfg.HashBits2 = 10, 10
+			case "BUF":
+			default:
+				cfg.HashBits = 10
+			}
+			x, err := newParserExec(cfg)
+			if err != nil {
+				return nil, false
+			}
+			x.trackSlices = true
+			return x, true
+		}
+		a, ok1 := mk("a")
+		b, ok2 := mk("b")
+		if !ok1 || !ok2 {
+			return
+		}
+		stream := largeStream(t, 300_000)
+		pos := 0
+		take := func(n int) []byte {
+			if pos+n > len(stream) {
+				pos = 0
+			}
+			pos += n
+			return stream[pos-n : pos]
+		}
+		size := func(label string) int {
+			if rapid.Bool().Draw(t, label+"Big") {
+				return 100_000 - rapid.IntRange(0, 70_000).Draw(t, label+"BelowMax")
+			}
+			return rapid.IntRange(1, 5000).Draw(t, label)
+		}
+		c := func() any { return map[string]any{"a": a.Case().Cfg, "b": b.Case().Cfg, "opsA": len(a.log), "opsB": len(b.log)} }
+		beginCase("C15", "foreign", c)
+		defer endCase()
+		a.step(POp{Op: "reset", Data: take(minInt(size("aReset"), a.cc.BufferSize)), Cap: rapid.SampledFrom([]int{7, 8, 64, 40_000}).Draw(t, "aCap")})
+		// interleave: A grows, B grows
+		for k := rapid.IntRange(1, 4).Draw(t, "rounds"); k > 0; k-- {
+			if rapid.Bool().Draw(t, "aWrites") {
+				a.step(POp{Op: "write", Data: take(size("aWrite"))})
+				if rapid.Bool().Draw(t, "aParses") {
+					a.step(POp{Op: "parse"})
+				}
+			}
+			b.step(POp{Op: "write", Data: take(size("bWrite"))})
+			if rapid.Bool().Draw(t, "bParses") {
+				b.step(POp{Op: "parse"})
+			}
+		}
+		a.step(POp{Op: "readat", Off: int64(a.off), Len: a.buffered()})
+		a.release() // the caller drops A and reuses its slice
+		b.step(POp{Op: "readat", Off: int64(b.off), Len: b.buffered()})
+		b.step(POp{Op: "write", Data: take(size("bWrite2"))})
+		b.step(POp{Op: "readat", Off: int64(b.off), Len: b.buffered()})
+		for k := b.unparsed()/4096 + 2; k > 0 && b.unparsed() > 0 && !b.dead; k-- {
+			b.step(POp{Op: "parse"})
+		}
+		endCase()
+		for _, x := range []*parserExec{a, b} {
+			for _, prop := range []string{"C15", "C01"} {
+				if msg, bad := x.first(prop); bad {
+					recordFailure("C15", "foreign", map[string]any{"a": a.Case(), "b": b.Case()}, msg)
+					t.Fatalf("C15 violated (a parser shows bytes it was never fed after another parser's slice was reused): %s", msg)
+				}
+			}
+		}
+		cl := []string{"foreign"}
+		if len(b.fed) > 65536 {
+			cl = append(cl, "foreign:b>64KiB")
+		}
+		sum := c()
+		st.eval(cl, len(a.fed) > 65536 || len(b.fed) > 65536, hashJSON(sum), "foreign", func() any { return sum })
+	})
+}
